@@ -34,6 +34,10 @@ func ZZ_C33_block_announce() {
 	zzStable33("announce", m.Encode, func(b []byte) (func() ([]byte, error), error) {
 		var m2 BlockAnnounceMessage
 		err := m2.Decode(b)
+		if err == nil {
+			vrt.Assert("announce_redecodes_to_equal_message", vrt.And(vrt.And(m2.ParentHash == m.ParentHash, m2.Number == m.Number),
+				vrt.And(vrt.And(m2.StateRoot == m.StateRoot, m2.ExtrinsicsRoot == m.ExtrinsicsRoot), vrt.And(m2.BestBlock == m.BestBlock, len(m2.Digest) == len(m.Digest)))))
+		}
 		return m2.Encode, err
 	})
 	vrt.Reach("end")
@@ -57,6 +61,10 @@ func ZZ_C33_handshake_and_transactions() {
 		zzStable33("handshake", hs.Encode, func(b []byte) (func() ([]byte, error), error) {
 			var h2 BlockAnnounceHandshake
 			err := h2.Decode(b)
+			if err == nil {
+				vrt.Assert("handshake_redecodes_to_equal_message", vrt.And(vrt.And(h2.Roles == hs.Roles, h2.BestBlockNumber == hs.BestBlockNumber),
+					vrt.And(h2.BestBlockHash == hs.BestBlockHash, h2.GenesisHash == hs.GenesisHash)))
+			}
 			return h2.Encode, err
 		})
 	case 1:
@@ -71,6 +79,14 @@ func ZZ_C33_handshake_and_transactions() {
 		zzStable33("transactions", tm.Encode, func(b []byte) (func() ([]byte, error), error) {
 			var t2 TransactionMessage
 			err := t2.Decode(b)
+			if err == nil {
+				vrt.Assert("transactions_redecode_count", len(t2.Extrinsics) == len(tm.Extrinsics))
+				if len(t2.Extrinsics) == len(tm.Extrinsics) {
+					for i := range tm.Extrinsics {
+						vrt.Assert("transactions_redecode_to_equal_message", len(t2.Extrinsics[i]) == len(tm.Extrinsics[i]) && vrt.BytesEq(t2.Extrinsics[i], tm.Extrinsics[i]))
+					}
+				}
+			}
 			return t2.Encode, err
 		})
 	}
